@@ -429,6 +429,21 @@ func run(c *h.Ctx, cs Case) {
 		if nd+ni != len(want) {
 			c.Fail("C17/honest-type-partition", "%d delegations + %d invocations != %d tokens", nd, ni, len(want))
 		}
+		// look-ups are reads: asking for CIDs that are NOT keys of the container (the same digest under another
+		// codec or CID version, an unrelated CID) - found or not - leaves the container as it was
+		before := keyset(rd)
+		for _, s := range sealed {
+			c0 := ctr.RefCID(s.data)
+			dg, _ := mh.Sum(s.data, mh.SHA2_256, -1)
+			for _, alias := range []cid.Cid{cid.NewCidV1(cid.Raw, c0.Hash()), cid.NewCidV0(dg), cid.NewCidV1(cid.DagJSON, c0.Hash()), ctr.RefCID(append([]byte("not in here"), s.data[:8]...))} {
+				_, _ = rd.GetToken(alias)
+				_, _ = rd.GetDelegation(alias)
+			}
+		}
+		if after := keyset(rd); fmt.Sprint(after) != fmt.Sprint(before) {
+			c.Fail("C17/honest-lookup-changes-container", "after GetToken / GetDelegation with CIDs that are not keys of the container, its keys are %v (before: %v)", after, before)
+			return
+		}
 		// GetInvocation: THE invocation of a container that holds exactly one; an error otherwise
 		gi, gerr := rd.GetInvocation()
 		switch {
